@@ -203,6 +203,8 @@ def gen(rng, tier):
         ops.append(mk_getenv(v, LIMS + 1, objsize=8, tag="limit+1"))
         ops.append(mk_getenv(v, LIMS + 1, objsize=8, bos=8, tag="limit+1+bos"))
         ops.append(mk_getenv(v, LIMS, objsize=LIMS, tag="limit"))
+        # dmax above the limit inside a known object that really is that large (CHK_DEST_OVR lets it through by design)
+        ops.append(mk_getenv(v, LIMS + 1, prior=[0x51] * (LIMS + 100), bos=LIMS + 100, objsize=LIMS + 100, tag="limit+1-within-bos"))
     long = [0x61 + i % 26 for i in range(100)]
     for dmax in (99, 100, 101, 120):
         ops.append(mk_getenv(long, dmax, tag="long"))
@@ -220,6 +222,7 @@ def gen(rng, tier):
             ops.append(mk_strerror(e, dmax, bos=bos, objsize=max(bos, dmax), tag="bos"))
         ops.append(mk_strerror(e, LIMS + 1, objsize=8, tag="limit+1"))
         ops.append(mk_strerror(e, LIMS, objsize=LIMS, tag="limit"))
+        ops.append(mk_strerror(e, LIMS + 1, prior=[0x51] * (LIMS + 100), bos=LIMS + 100, objsize=LIMS + 100, tag="limit+1-within-bos"))
     gen_time(rng, tier, ops)
     n = 200 if tier == "quick" else 4000
     for _ in range(n):
@@ -292,7 +295,12 @@ def annotate(op):
         if m["dest"] is None and dmax != 0:
             viol.add(ESNULLP); names.append("dest-null-dmax")
         if m["dest"] is not None and dmax > LIMS:
-            viol.add(ESLEMAX); names.append("dmax-max")
+            if bos is not None and dmax <= bos:
+                # a known object that really is that large: CHK_DEST_OVR lets it through by design; rejecting it with the
+                # documented ESLEMAX would be acceptable too - but whatever happens must be reported consistently
+                opt.add(ESLEMAX); names.append("dmax-max-within-bos")
+            else:
+                viol.add(ESLEMAX); names.append("dmax-max")
         if m["dest"] is not None and bos is not None and dmax > bos:
             viol |= {EOVERFLOW, ESLEMAX}; names.append("dmax-bos")     # documented EOVERFLOW; ESLEMAX accepted
         if m["nnull"]:
@@ -322,7 +330,10 @@ def annotate(op):
         if dmax == 0:
             viol.add(ESZEROL); names.append("dmax-zero")
         if dmax > LIMS:
-            viol.add(ESLEMAX); names.append("dmax-max")
+            if bos is not None and dmax <= bos:
+                opt.add(ESLEMAX); names.append("dmax-max-within-bos")
+            else:
+                viol.add(ESLEMAX); names.append("dmax-max")
         if bos is not None and dmax > bos:
             viol.add(EOVERFLOW); names.append("dmax-bos")
         if not viol and len(msg) >= dmax and dmax < 4:
